@@ -85,9 +85,20 @@ def generate(tier, rng):
         n0 = rng.randrange(3, 7)
         fl = rng.choice(["nm", "light"])
         ops = fc.random_history(rng, n0, rng.randrange(3, 9 if tier == "quick" else 16), nonnode=False)
+        for o in ops:
+            # values must be correct right after *any* mutation, also one that a hook aborted half-way
+            if rng.random() < 0.3:
+                o["faults"] = {"at": [rng.randrange(0, 8)]}
         tups = [[rng.randrange(n0) for _ in range(rng.choice([2, 3]))] for _ in range(4)]
         yield {"fam": "nav", "fl": fl, "n0": n0, "ops": ops, "ca": tups,
                "cls": (rng.choice(["mixin", "node", "anynode"]) if fl == "nm" else None)}
+
+
+def judge(case, impl, drv):
+    if isinstance(impl, list) and impl and impl[-1].get("res") == "RecursionError":
+        n = len(impl) - 1          # nothing is comparable from a RecursionError on (finding K4)
+        return impl[:n] == drv["spec"][:n], impl[:n] == drv["mirror"][:n]
+    return impl == drv["spec"], impl == drv["mirror"]
 
 
 def nontrivial(case):
